@@ -352,6 +352,68 @@ def toStringS (a : Option Val) : R Val :=
     | some (.date u none) => .ok (.str (isoZ u))     -- UTC, `YYYY-MM-DDTHH:MM:SS.mmmZ`
     | _ => unmodelled
 
+/-! ### `$dateFromParts` on its evaluated named arguments
+
+  The rule (server manual, `$dateFromParts`; calendar form, UTC): the argument is a document of
+  named parts; `year` is required, an integer in 1 … 9999; `month` and `day` default to 1,
+  `hour minute second millisecond` to 0; a part that is null or missing makes the result null; a
+  part outside its calendar range is *carried* into the next larger unit (month 14 is February of
+  the next year, day 0 the last day of the month before, second 60 the next minute, millisecond −1
+  the second before).  Left outside (no answer): the ISO-week form and `timezone`, names that are
+  no parts (the server rejects them), parts that are doubles or booleans, `month day hour minute`
+  beyond ±32767, a null part next to a part of a wrong type (which of the two the server reports
+  first is not stated here), and a result outside the years 1 … 9999. -/
+
+def partKeys : List String := ["year", "month", "day", "hour", "minute", "second", "millisecond"]
+def isoPartKeys : List String := ["isoWeekYear", "isoWeek", "isoDayOfWeek", "timezone"]
+
+inductive PartArg where
+  | absent | nullish | num (n : Int) | bad | outside
+  deriving Repr, DecidableEq, Inhabited
+
+def partArg (key : String) (args : Env) : PartArg :=
+  match args.lookup key with
+  | none => .absent
+  | some none | some (some .null) => .nullish
+  | some (some (.int n)) => .num n
+  | some (some (.dbl _ _)) | some (some (.bool _)) => .outside
+  | some (some _) => .bad
+
+def PartArg.getD (dflt : Int) : PartArg → Int
+  | .num n => n
+  | _ => dflt
+
+/-- the instant of (year, month, day, hour, minute, second, millisecond) with every part but the
+    year carried: the first of the month that lies `month − 1` months after January of `y`, then
+    `day − 1` days, and the time of day added up; µs since the epoch -/
+def carryUs (y mo d h mi s ms : Int) : Int :=
+  (daysFromCivil (y + (mo - 1) / 12) ((mo - 1) % 12 + 1) 1 + (d - 1)) * usPerDay
+    + h * 3600000000 + mi * 60000000 + s * 1000000 + ms * 1000
+
+def smallPart (n : Int) : Bool := decide (-32768 ≤ n) && decide (n ≤ 32767)
+
+def dateFromPartsS (args : Env) : R Val :=
+  if args.any (fun kv => !((partKeys ++ isoPartKeys).contains kv.1)) then unmodelled
+  else if args.any (fun kv => isoPartKeys.contains kv.1) then unmodelled
+  else
+    let ps := partKeys.map (fun k => partArg k args)
+    if partArg "year" args = .absent then .error .opFail
+    else if ps.any (· = .outside) then unmodelled
+    else if ps.any (· = .bad) && ps.any (· = .nullish) then unmodelled
+    else if ps.any (· = .bad) then .error .opFail
+    else if ps.any (· = .nullish) then .ok .null
+    else
+      let y := (partArg "year" args).getD 1970
+      let mo := (partArg "month" args).getD 1
+      let d := (partArg "day" args).getD 1
+      let h := (partArg "hour" args).getD 0
+      let mi := (partArg "minute" args).getD 0
+      let s := (partArg "second" args).getD 0
+      let ms := (partArg "millisecond" args).getD 0
+      if y < 1 || y > 9999 then .error .opFail
+      else if !(smallPart mo && smallPart d && smallPart h && smallPart mi) then unmodelled
+      else mkDate (carryUs y mo d h mi s ms)
+
 /-! ### `$sum $avg $min $max` on evaluated operands -/
 
 def accOps : List String := ["$sum", "$avg", "$min", "$max"]
@@ -560,6 +622,7 @@ mutual
       else if k = "$and" || k = "$or" then do
         pure (some (.bool (toBool (← sEval root env (.doc gs)))))
       else if k = "$ifNull" then .error .opFail
+      else if k = "$dateFromParts" then do (dateFromPartsS (← sVars root env gs)).map some
       else unmodelled
     | [(k, v)] =>
       if k = "$literal" then .ok (some v)
